@@ -53,7 +53,7 @@ func (b *c17Body) Read(p []byte) (int, error) {
 func (b *c17Body) Close() error { return nil }
 
 var c17Resp struct {
-	mode   int // 0 transport error, 1 not found, 2 ok
+	mode   int // 0 transport error, 1 not found, 2 ok, 3 partial content (206), 4 no content (204)
 	chunks int
 	fail   bool  // the body breaks off
 	clen   int64 // announced length
@@ -66,6 +66,11 @@ func VerifModel_http_Client_Do(_ *http.Client, _ *http.Request) (*http.Response,
 		return nil, errors.New("connection refused")
 	case 1:
 		return &http.Response{StatusCode: 404, Status: "404 Not Found", Body: &c17Body{}}, nil
+	case 3:
+		// a fragment of the resource, with a length that is right for the fragment
+		return &http.Response{StatusCode: 206, Status: "206 Partial Content", ContentLength: c17Resp.clen, Body: &c17Body{chunks: c17Resp.chunks, fail: c17Resp.fail}}, nil
+	case 4:
+		return &http.Response{StatusCode: 204, Status: "204 No Content", ContentLength: 0, Body: &c17Body{}}, nil
 	}
 	return &http.Response{StatusCode: 200, Status: "200 OK", ContentLength: c17Resp.clen, Body: &c17Body{chunks: c17Resp.chunks, fail: c17Resp.fail}}, nil
 }
@@ -83,6 +88,13 @@ func c17NativeServer() *httptest.Server {
 		case 1:
 			http.NotFound(w, r)
 			return
+		case 4:
+			w.WriteHeader(204)
+			return
+		}
+		status := 200
+		if c17Resp.mode == 3 {
+			status = 206
 		}
 		body := make([]byte, c17Resp.chunks)
 		for i := range body {
@@ -90,7 +102,7 @@ func c17NativeServer() *httptest.Server {
 		}
 		if c17Resp.clen < 0 && !c17Resp.fail {
 			// no Content-Length: flushing the header first makes the reply chunked
-			w.WriteHeader(200)
+			w.WriteHeader(status)
 			if fl, ok := w.(http.Flusher); ok {
 				fl.Flush()
 			}
@@ -100,7 +112,7 @@ func c17NativeServer() *httptest.Server {
 		if c17Resp.fail {
 			// announce more than is sent, then drop the connection
 			w.Header().Set("Content-Length", "1000")
-			w.WriteHeader(200)
+			w.WriteHeader(status)
 			_, _ = w.Write(body)
 			if hj, ok := w.(http.Hijacker); ok {
 				if conn, _, err := hj.Hijack(); err == nil {
@@ -109,7 +121,7 @@ func c17NativeServer() *httptest.Server {
 			}
 			return
 		}
-		w.WriteHeader(200)
+		w.WriteHeader(status)
 		_, _ = w.Write(body)
 	}))
 }
@@ -122,7 +134,7 @@ func VerifC17_FetchFile() {
 	res.Versions = []*ResourceVersion{rv}
 	dest := rv.storagePath()
 	rt.NativeAtomicDest(dest)
-	c17Resp.mode = rt.Choice("response", 3)
+	c17Resp.mode = rt.Choice("response", 5)
 	c17Resp.chunks = rt.Choice("chunks", 3)
 	c17Resp.fail = rt.Bool("bodyfails")
 	c17Resp.clen = int64(c17Resp.chunks)
